@@ -120,3 +120,20 @@ Definition C07_seamless_cursor_files : Prop :=
                   fst res = [] \/
                   rev (cs_stack c') = above (rn (cu_lib cu)) merged \/
                   exists r1 rest1, rest = r1 :: rest1 /\ from_num (bnum r1) (rev (cs_stack c')) = rest).
+
+(* ------------------------------------------------------------------ files_agree cannot be dropped *)
+
+(* Every hypothesis of C07_seamless_num except files_agree, and a delivered sequence that breaks the discipline:
+   the merged files hold block 14 while the hub (LIB 13) sits on the fork 13 <- 114 <- 115 and becomes ready only
+   after block 14 has been delivered from the files; JoiningSource asks the hub for "block NUMBER 15" and gets the
+   forked 115: delivered are ... 14, New 115 (parent 114 never delivered), Undo 115, Undo 114, New 14 (a second
+   time), ...  The join is by number, not by block id. *)
+Definition C07_files_agree_needed : Prop :=
+  exists (U : list block) (c : jcfg) (w : world) (ps : list (N * N)) (merged_end : N) (canon forked : list block),
+    wf_b U = true /\ lib_ok_b LNone U = true /\ hub_of_universe U c w /\
+    chain_ok canon /\ incl canon U /\
+    eventual_tip c w canon /\
+    j_mode c = 0 /\ j_filter c = 0 /\ j_stop c = 0 /\ 0 < j_bundle c /\
+    Forall (fun b => bnum b < file_bound) (filter (fun b => bnum b <? merged_end) canon) /\
+    (exists b, In b canon /\ bnum b = run_start c w) /\
+    cons_fold_aside cons0 (map as_new (fst (stream_run c w ps merged_end (filter (fun b => bnum b <? merged_end) canon) forked))) = None.
